@@ -8,6 +8,7 @@ import (
 	"path/filepath"
 	"strings"
 	"time"
+	"unicode/utf8"
 
 	"github.com/spf13/afero"
 )
@@ -66,6 +67,18 @@ func (ms *metaStore) metaPath(bucket string, object string) metaPath {
 	h.Write([]byte(object))
 	object = strings.Replace(object, "/", "_", -1)
 	object = strings.Replace(object, "\\", "_", -1)
+
+	// The readable part of the record's name is a convenience, the hash is
+	// what identifies the key. A key may be up to 1024 bytes long while file
+	// names usually end at 255: keep the name within that.
+	const maxReadable = 200
+	if len(object) > maxReadable {
+		cut := maxReadable
+		for cut > 0 && !utf8.RuneStart(object[cut]) {
+			cut--
+		}
+		object = object[:cut]
+	}
 
 	return metaPath{bucket, object + "-" + hex.EncodeToString(h.Sum(nil))}
 }
